@@ -243,6 +243,27 @@ def r8_own_session(chk: Check):
                 "kills the job with the scheduler, the next run finds nothing to adopt and the body runs again", chk.loc(st.module, st.node))
 
 
+
+def r9_stopping_unwinds_nothing(chk: Check):
+    """Stopping the scheduler leaves the coroutine of a running job where it is: cancelling it would unwind `with Locks()` and give back the
+    tokens of a job that is still alive (the next run then launches the waiting jobs beside the adopted one).  And a re-run registers its
+    dependencies before counting them down (= C04.R4): a join whose first parent is already done must still wait for the other"""
+    tree = chk.tree
+    n = 0
+    for ff in tree.nontest_funcs():
+        if not ff.module.name.startswith("scheduler"):
+            continue
+        n += 1
+        for c in fn_calls(ff.node):
+            if tail(c) == "cancel" and isinstance(c.func, ast.Attribute) and not c.args:
+                chk.violation(chk.fkey(ff, "cancels scheduler tasks"), f"`{src(c)}` in `{ff.qual}` cancels a scheduler coroutine: `with Locks()` of aio_start unwinds and the tokens of running jobs are given back", chk.loc(ff.module, c))
+    chk.min_instances(n, 20, "scheduler functions scanned for task cancellation")
+    if not any(i["rule"].endswith("R9") and i["verdict"] == "VIOLATED" for i in chk.instances):
+        chk.ok("scheduler:no coroutine is cancelled", "")
+    from .c04 import r4_registration_order
+
+    r4_registration_order(chk)
+
 RULES = [
     ("R1", "adoption precedes start: job.aio_process() dominates every start; the adoption branch marks RUNNING, waits for the process, ends DONE/ERROR and never starts the job", r1_adoption_precedes_start),
     ("R2", "adoption decision table of CommandLineJob.aio_process (own process / no pid file / vanished / running / not running); a vanished pid maps to None", r2_adoption_decision),
@@ -252,4 +273,5 @@ RULES = [
     ("R7", "a process forked by the task body drops the runner's exit cleanup and signal handlers: the pid file of the running job survives its helpers (= C10.R3)", r7_forked_children_harmless),
     ("R5", "token holdings left by a dead scheduler are reclaimed after restart: every foreign holding that is read is watched (at construction of the token too) and its watcher deletes it (= C09.R3)", r5_stale_tokens_reclaimed),
     ("R8", "a detached job gets its own session (finding kept in known_findings.json)", r8_own_session),
+    ("R9", "stopping the scheduler cancels no job coroutine (tokens of running jobs stay taken); dependencies are counted before they are checked (= C04.R4)", r9_stopping_unwinds_nothing),
 ]
